@@ -189,6 +189,24 @@ pub fn replay_case(case: &Value, tally: &mut Tally) {
             }
             Value::Array(out)
         });
+        // an iterator cloned mid-way (after steps from both ends) yields exactly what the original still has to yield
+        let cloned = guarded_val(|| {
+            let mut out = Vec::new();
+            for (f, b) in [(0usize, 1usize), (1, 1), (1, 2), (2, 0)] {
+                let mut it = wm.iter();
+                for _ in 0..f { it.next(); }
+                for _ in 0..b { it.next_back(); }
+                let c = it.clone();
+                let (lc, li) = (c.len(), it.len());
+                let rest_c: Vec<u64> = c.collect();
+                let rest_i: Vec<u64> = it.collect();
+                let lo = f.min(vals.len());
+                let hi = vals.len().saturating_sub(b).max(lo);
+                out.push(json!([rest_c == vals[lo..hi].to_vec(), rest_i == rest_c, lc == hi - lo, li == lc]));
+            }
+            Value::Array(out)
+        });
+        tally.check(hkey(&[ckey, 17]), nt, &|| ctx("iter: clone after steps from both ends", &json!(0), 0), &json!([[true, true, true, true], [true, true, true, true], [true, true, true, true], [true, true, true, true]]), &cloned);
         // the owning iterator: items, and its exact length after every step
         let owned = guarded_val(|| {
             let mut it = wm.clone().into_iter();
